@@ -2056,7 +2056,8 @@ class Transaction(object):
                     if not inp.compressed:
                         scr_size += 33
                     if inp.witness_type == 'p2sh-segwit':
-                        scr_size += 24
+                        # The script of a nested segwit input (a push of 0014<key hash>) is not witness data
+                        est_size += 24
                 # elif inp.script_type in ['p2sh_multisig', 'p2sh_p2wpkh', 'p2sh_p2wsh']:
                 elif inp.script_type == 'p2sh_multisig':
                     scr_size += 9 + (len(inp.keys) * 34) + (inp.sigs_required * 72)
